@@ -7,25 +7,25 @@ CHECKS['C11'] = dict(
     level='fault_enumeration',
     technique='exhaustive fault enumeration (every truncation, every header-field boundary value, every data byte x values, pairs of field deviations) around independently encoded seed files, each execution of the real readers in an isolated worker with ASan/UBSan, watchdog and a dual-fill differential for uninitialised data',
     rule='case = (seed file variant, deviation, device, entry point). Seeds: 149 tiny valid BMP/PNM/TARGA files of every variant the decoders distinguish, written by independent encoders '
-         '(gen/seeds.py) with header field tables and byte regions, plus 12 PNG/JPEG/TIFF files written by GIL at run time (GIL-written JPEG seeds are cut at the true end of the stream; one carries 12 fixed trailing bytes). Deviations (bound 1): every truncation length; every header field x boundary values of its width '
+         '(gen/seeds.py) with header field tables and byte regions, plus 13 PNG/JPEG/TIFF files written by GIL at run time (GIL-written JPEG seeds are cut at the true end of the stream; one carries 12 fixed trailing bytes). Deviations (bound 1): every truncation length; every header field x boundary values of its width '
          '{0,1,2,v-1,v+1,0x7F,0x80,0xFF,0x7FFF,0x8000,0xFFFF,0x7FFFFFFF,0x80000000,0xFFFFFFFF} (ascii fields: 16 tokens); every byte of palette/pixel/RLE regions x 8 values '
          '(thorough: all 256); bound 2 (thorough): all pairs of header-field deviations. Entry points: read_image_info, read_image<rgb8|rgba8|gray8>, read_view, read_and_convert_image, '
          'read_and_convert_view, scanline reader; devices: FILE* (fmemopen), std::istream, file name (truncations). Each case is executed twice (stack painted / destination pre-filled with '
          '0x5A vs 0xC3). Allowed outcomes: normal return, C++ exception. Violations: sanitizer report, fatal signal, timeout, differing results between the two fills, silent-accept '
          '(normal return although the encoder\'s layout arithmetic proves the file cannot contain what its header declares). non-trivial = every case except the unmodified seed.',
     assumptions=ASSUME_COMMON + ['operator new above 256 MB throws std::bad_alloc (an absurd declared size must be an exception, not an OOM kill)',
-                                 'PNG/JPEG/TIFF: libpng/libjpeg/libtiff are uninstrumented shared libraries — inside them only what ASan\'s interceptors see is visible; the GIL-side glue is fully instrumented. Their seeds are written by GIL\'s own writers at run time (12 files), deviations = every truncation + every byte x {bit 0 flipped, bit 7 flipped, 0x00, 0xFF}; no silent-accept oracle there (no field table)',
+                                 'PNG/JPEG/TIFF: libpng/libjpeg/libtiff are uninstrumented shared libraries — inside them only what ASan\'s interceptors see is visible; the GIL-side glue is fully instrumented. Their seeds are written by GIL\'s own writers at run time (13 files), deviations = every truncation + every byte x {bit 0 flipped, bit 7 flipped, 0x00, 0xFF}; no silent-accept oracle there (no field table)',
                                  'termination is decided by a wall-clock watchdog per case: 4 s for an input of at most a few hundred bytes; a case that exceeds it is run again, first in a fresh worker, with a 60 s limit and is reported as a hang only if that expires too (counters watchdog_expiries_rechecked / watchdog_expiry_not_confirmed_with_15x_limit; after three confirmed hangs in one unit further expiries are reported without the second run); scanline iteration is cut after 70 000 rows'],
     tus=[dict(name='c11_' + f, src='harness/c11_%s.cpp' % f, deps=_C11_DEPS) for f in ('bmp', 'pnm', 'targa')] +
         [dict(name='c11_libfmt', src='harness/c11_libfmt.cpp', deps=_C11_DEPS, libs=['-lpng', '-lz', '-ljpeg', '-ltiffxx', '-ltiff'])],
     runs=dict(quick=_c11_runs(dict(small_only=1, devmask=6), 8) +
-                    [dict(tu='c11_libfmt', group='png', bounds=dict(devmask=6), shards=5), dict(tu='c11_libfmt', group='jpeg', bounds=dict(devmask=6), shards=3),
+                    [dict(tu='c11_libfmt', group='png', bounds=dict(devmask=6), shards=5), dict(tu='c11_libfmt', group='jpeg', bounds=dict(devmask=6), shards=4),
                      dict(tu='c11_libfmt', group='tiff', bounds=dict(devmask=6), shards=4)],
               thorough=_c11_runs(dict(small_only=0, devmask=7, all256=0), 16) +                 # every seed, three devices
                        _c11_runs(dict(small_only=1, devmask=2, all256=1), 16) +                 # smallest seeds: all 256 values of every data byte
                        _c11_runs(dict(small_only=1, devmask=2, pairstride=1), 16, groups=('pairs',)) +
-                       [dict(tu='c11_libfmt', group='png', bounds=dict(devmask=7, name_all=1), shards=5), dict(tu='c11_libfmt', group='jpeg', bounds=dict(devmask=7, name_all=1), shards=3),
+                       [dict(tu='c11_libfmt', group='png', bounds=dict(devmask=7, name_all=1), shards=5), dict(tu='c11_libfmt', group='jpeg', bounds=dict(devmask=7, name_all=1), shards=4),
                         dict(tu='c11_libfmt', group='tiff', bounds=dict(devmask=7, name_all=1), shards=4)]),
-    witnesses_required=dict(all=['truncations', 'field_deviations', 'byte_deviations', 'rejected_with_exception', 'returned_normally']),
+    witnesses_required=dict(all=['jpeg_four_component_seed', 'jpeg_seed_with_trailing_bytes', 'truncations', 'field_deviations', 'byte_deviations', 'rejected_with_exception', 'returned_normally']),
     deadline=dict(quick=1200, thorough=7200),
 )
